@@ -15,6 +15,7 @@ import (
 	"github.com/bytedance/gopkg/lang/mcache"
 	"math/rand"
 	"os"
+	"runtime"
 	"strings"
 	"time"
 )
@@ -83,6 +84,10 @@ type vWorld struct {
 	capv   int
 	big    bool
 	own    *vOwn // non-nil: ownership oracle (C02/C03) is on
+	// directed scenario class "parse a multi-node input, release late" (valid stream, one sequence in four): see plan()
+	planned bool
+	plan    []string
+	planBuf int
 }
 
 func (w *vWorld) dump(ids ...int) string {
@@ -104,6 +109,9 @@ func (w *vWorld) exec(toks []string) (reply string) {
 	}
 	id := atoi(toks[1])
 	vb := w.bufs[id]
+	if w.own != nil {
+		w.own.cur = toks
+	}
 	if toks[0] == "new" {
 		vb = &vBuf{b: NewLinkBuffer(atoi(toks[2]))}
 		w.bufs[id] = vb
@@ -117,6 +125,11 @@ func (w *vWorld) exec(toks []string) (reply string) {
 	defer func() {
 		if r := recover(); r != nil {
 			reply = "panic"
+			if toks[0] == "slice" {
+				// Slice "will automatically execute a Release": a Slice that got as far as panicking has ended the
+				// parent's earlier results (what it freed before is not a free under a live result)
+				w.own.released(id)
+			}
 		}
 	}()
 	res := "ok"
@@ -201,11 +214,13 @@ func (w *vWorld) exec(toks []string) (reply string) {
 		res = vBytesRes(p[:n])
 		w.own.view(id, p[:n], true)
 	case "rel":
+		// the caller gives up its results by calling Release: they end before the call frees anything
+		// (also when the call then panics half way)
+		w.own.released(id)
 		errRes(b.Release())
-		w.own.released(id)
 	case "close":
-		errRes(b.Close())
 		w.own.released(id)
+		errRes(b.Close())
 	case "len":
 		res = fmt.Sprintf("ok n:%d", b.Len())
 	case "mlen":
@@ -311,6 +326,17 @@ func (w *vWorld) live(pred func(*vBuf) bool) (int, *vBuf) {
 // gen produces the next op line (contract-respecting when w.valid).
 func (w *vWorld) gen() string {
 	r := w.rnd
+	if w.valid && !w.planned {
+		w.planned = true
+		if r.Intn(4) == 0 {
+			w.makePlan()
+		}
+	}
+	if len(w.plan) > 0 {
+		k := w.plan[0]
+		w.plan = w.plan[1:]
+		return w.planStep(k)
+	}
 	if len(w.order) == 0 || r.Intn(40) == 0 && len(w.order) < 6 {
 		id := w.nextID
 		w.nextID++
@@ -466,6 +492,109 @@ func (w *vWorld) gen() string {
 	return fmt.Sprintf("len %d", w.order[0])
 }
 
+// makePlan: a history the uniform op mix rarely produces although protocol parsers do exactly this - a buffer is
+// filled with several nodes, then consumed node by node with no Release in between, each node either by a
+// zero-copy read (Next, or Peek+Skip: the node is exposed and must survive until Release) or by a copying read
+// (Skip/ReadBinary/ReadString: not exposed), with connection-style Reads (readCopy: recycles the unexposed
+// consumed nodes at once and re-links the exposed ones) at random positions.  So every exposure pattern of the
+// consumed nodes meets readCopy.  Then new node structs are taken (the recycled ones come back from linkedPool)
+// and only then the reader is released.
+func (w *vWorld) makePlan() {
+	r := w.rnd
+	w.plan = []string{"new"}
+	for i, k := 0, 4+r.Intn(4); i < k; i++ {
+		w.plan = append(w.plan, "fill")
+		if r.Intn(4) != 0 || i == k-1 {
+			w.plan = append(w.plan, "flush")
+		}
+	}
+	for round, rounds := 0, 1+r.Intn(2); round < rounds; round++ {
+		for i, k := 0, 1+r.Intn(4); i < k; i++ {
+			w.plan = append(w.plan, "node")
+		}
+		w.plan = append(w.plan, "read")
+	}
+	for i, k := 0, []int{0, 1, 1, 2}[r.Intn(4)]; i < k; i++ {
+		w.plan = append(w.plan, "alloc")
+	}
+	w.plan = append(w.plan, "rel")
+}
+
+func (w *vWorld) planStep(kind string) string {
+	r := w.rnd
+	id := w.planBuf
+	c := w.capv
+	// what is left of the node the next read starts in
+	rest := func() (int, int) {
+		b := w.bufs[id].b
+		L := b.Len()
+		nd := b.read
+		for nd != nil && nd != b.flush && nd.Len() == 0 {
+			nd = nd.next
+		}
+		n := 0
+		if nd != nil {
+			n = nd.Len()
+		}
+		if n > L {
+			n = L
+		}
+		return n, L
+	}
+	switch kind {
+	case "new":
+		w.planBuf = w.nextID
+		w.nextID++
+		return fmt.Sprintf("new %d %d", w.planBuf, []int{0, 1, c, c}[r.Intn(4)])
+	case "fill":
+		w.bufs[id].written = true
+		return fmt.Sprintf("mal %d %d %d", id, []int{c, c, c - 1, c + 1, c / 2, 2 * c, 1 + r.Intn(2*c)}[r.Intn(7)], r.Intn(1000))
+	case "flush":
+		return fmt.Sprintf("flush %d", id)
+	case "node":
+		n, L := rest()
+		switch r.Intn(6) {
+		case 0:
+			if n > 1 {
+				n = 1 + r.Intn(n) // part of the node only
+			}
+		case 1:
+			n += []int{1, c}[r.Intn(2)] // into / over the next node
+			if n > L {
+				n = L
+			}
+		}
+		op := []string{"next", "next", "next", "peek", "skip", "skip", "rbin", "rstr"}[r.Intn(8)]
+		if op == "peek" {
+			// Peek exposes without consuming; the following planned step consumes
+			if n > 1 && r.Intn(2) == 0 {
+				n = 1 + r.Intn(n)
+			}
+			w.plan = append([]string{"node-unexposing"}, w.plan...)
+		}
+		return fmt.Sprintf("%s %d %d", op, id, n)
+	case "node-unexposing":
+		n, _ := rest()
+		return fmt.Sprintf("%s %d %d", []string{"skip", "rbin", "rstr"}[r.Intn(3)], id, n)
+	case "read":
+		n, L := rest()
+		n = []int{n, n, n, n - 1, n + 1, n + c, L, 1, w.rdSize(L)}[r.Intn(9)]
+		if n < 0 {
+			n = 0
+		}
+		return fmt.Sprintf("read %d %d", id, n)
+	case "alloc":
+		if r.Intn(3) == 0 {
+			nid := w.nextID
+			w.nextID++
+			return fmt.Sprintf("new %d %d", nid, []int{0, 1, c, 2 * c}[r.Intn(4)])
+		}
+		w.bufs[id].written = true
+		return fmt.Sprintf("mal %d %d %d", id, []int{1, c, c + 1, 3 * c}[r.Intn(4)], r.Intn(1000))
+	}
+	return fmt.Sprintf("rel %d", id)
+}
+
 func (w *vWorld) rdSize(L int) int {
 	r := w.rnd
 	if w.valid && r.Intn(8) != 0 {
@@ -534,6 +663,11 @@ func VerifLBMain(args []string) int {
 	defer func() { LinkBufferCap = saveCap }()
 	var ownW *bufio.Writer
 	if *ownOut != "" {
+		// ownership runs: one P, so that linkedPool (a sync.Pool, per-P caches) hands a recycled node struct to
+		// the very next newLinkBufferNode, as it does on a busy server.  A node struct released twice then shows
+		// at once as a second buffer's block being freed under its data, and replays are reproducible (every op
+		// runs in its own goroutine, which could otherwise land on another P and miss the recycled struct).
+		runtime.GOMAXPROCS(1)
 		of, err := os.Create(*ownOut)
 		if err != nil {
 			fmt.Fprintln(os.Stderr, err)
@@ -569,6 +703,7 @@ func VerifLBMain(args []string) int {
 				w = &vWorld{bufs: map[int]*vBuf{}, capv: c}
 				if ownW != nil {
 					w.own = newVOwn()
+					w.own.attach(w)
 					fmt.Fprintln(ownW, "seq")
 				}
 				dead = false
@@ -618,6 +753,7 @@ func VerifLBMain(args []string) int {
 		fmt.Fprintln(iw, "seq")
 		if ownW != nil {
 			w.own = newVOwn()
+			w.own.attach(w)
 			fmt.Fprintln(ownW, "seq")
 		}
 		for i := 0; i < *nops; i++ {
